@@ -1,0 +1,31 @@
+//go:build verif
+
+package backendpb
+
+import (
+	"context"
+	"log/slog"
+	"net/netip"
+	"time"
+
+	"github.com/AdguardTeam/AdGuardDNS/internal/agd"
+	"github.com/AdguardTeam/AdGuardDNS/internal/errcoll"
+	"github.com/AdguardTeam/golibs/netutil"
+)
+
+// VerifC02ProfileToInternal converts a profile message of the backend into the
+// internal profile with the unchanged conversion code of [ProfileStorage]
+// ([DNSProfile.toInternal]): filter configuration, blocking mode and TTL of
+// filtered responses are what a synchronisation would store.  Devices are
+// converted as well; every bind address is accepted.
+func VerifC02ProfileToInternal(
+	ctx context.Context,
+	x *DNSProfile,
+	updTime time.Time,
+	errColl errcoll.Interface,
+	logger *slog.Logger,
+) (p *agd.Profile, devices []*agd.Device, err error) {
+	bindSet := netutil.SubnetSetFunc(func(netip.Addr) (ok bool) { return true })
+
+	return x.toInternal(ctx, updTime, bindSet, errColl, logger, EmptyProfileDBMetrics{}, 0)
+}
